@@ -1563,6 +1563,16 @@ func vfMultiPartQueries() []string {
 
 // vfExtraQueries: hand written texts for constructs the fixture corpora use rarely or not at all (S1, multiset check).
 var vfExtraQueries = []string{
+	// nested property paths in updating positions (oC_PropertyExpression allows any number of lookups)
+	"match (n) set n.a.b = 1 return n",
+	"match (n) set n.a.b.c += {x: 1} return n",
+	"match (n) remove n.a.b return n",
+	"match (n) remove n.a.b.c, n.d return n",
+	"match (n) where n.a.b = 1 return n.a.b.c",
+	// property keys that are keyword tokens of the lexer, written with backticks
+	"match (n) return n.`index`, n.`scan`, n.`join`, n.`using`, n.`explain`, n.`profile`, n.`cypher`",
+	"match (n) where n.`index` = 1 set n.`using` = 2 remove n.`scan` return n",
+	"match (n {`index`: 1}) return {`join`: n.`periodic`}",
 	"match (n:Person) using index n:Person(name) where n.name = 'x' return n",
 	"match (n:Person) using scan n:Person where n.name = 'x' return n",
 	"match (a)-->(b) using join on a return a",
